@@ -52,6 +52,9 @@ def build(case):
     for b, ss, k in zip(bs, g, kinds):
         if k == "term":
             b.add_op(test.TestTermOp(successors=[bs[s] for s in ss]))
+        elif k == "unreg":    # unregistered branch-like last op: counts as a terminator (has_trait default)
+            from xdsl.dialects.builtin import UnregisteredOp
+            b.add_op(UnregisteredOp.with_name("foo.br").create(successors=[bs[s] for s in ss]))
         elif k == "op":       # last op is not a terminator (and has no successors)
             b.add_op(test.TestOp())
         # "empty": no op at all
@@ -77,7 +80,7 @@ def impl(case):
 def eff_succ(case):
     g = case["g"]
     kinds = case.get("kinds") or ["term"] * len(g)
-    return [ss if k == "term" else [] for ss, k in zip(g, kinds)]
+    return [ss if k in ("term", "unreg") else [] for ss, k in zip(g, kinds)]
 
 
 def reach_from(g, start, removed=None):
@@ -139,8 +142,8 @@ def run(ctx: Ctx):
         n = rng.randint(2, 10)
         g, kinds = [], []
         for b in range(n):
-            k = rng.choices(["term", "op", "empty"], [10, 1, 1])[0]
-            deg = rng.choices([0, 1, 2, 3, 4], [2, 4, 5, 2, 1])[0] if k == "term" else 0
+            k = rng.choices(["term", "unreg", "op", "empty"], [8, 3, 1, 1])[0]
+            deg = rng.choices([0, 1, 2, 3, 4], [2, 4, 5, 2, 1])[0] if k in ("term", "unreg") else 0
             # bias towards forward edges so that large reachable sub-graphs with joins appear
             ss = [rng.randrange(n) if rng.random() < 0.4 else min(n - 1, b + rng.randint(0, 2)) for _ in range(deg)]
             if deg >= 3 and rng.random() < 0.5:
